@@ -18,15 +18,13 @@ pub(crate) fn get_relative_file_path_from_abs_file_and_folder_path(
     // check if the dir is a file
     let is_file = abs_folder_path.is_file();
 
-    // could also be the file name
-    let dir_name = PathBuf::from(
+    if is_file {
+        // the path of a single file: its name (a path without a final name component,
+        // such as `.`, `..` or `/`, never names a file; it is kept whole just in case)
         abs_folder_path
             .file_name()
-            .expect("Failed to get file/dir name"),
-    );
-
-    if is_file {
-        dir_name
+            .map(PathBuf::from)
+            .unwrap_or_else(|| abs_folder_path.to_path_buf())
     } else {
         let folder_prefix = abs_folder_path
             .parent()
